@@ -796,6 +796,16 @@ func TestCheck(t *testing.T) {
 		r.Finish()
 		return
 	}
+	// host pattern family: request hosts derived from the configured patterns (hosts_test.go)
+	if !runHostFamily(r) {
+		r.Finish()
+		return
+	}
+	// method list family: every ordered pair of consecutive requests on one boot (methods_test.go)
+	if !runMethodFamily(r, ip) {
+		r.Finish()
+		return
+	}
 
 	workers := runtime.NumCPU()
 	if workers > 16 {
@@ -1145,7 +1155,7 @@ func replay(r *runner.Run, path string, m *memo) {
 		r.Infra("replay: %v", err)
 		return
 	}
-	if replayCompose(r, b) {
+	if replayCompose(r, b) || replayHosts(r, b) || replayMethods(r, b, m.ip) {
 		return
 	}
 	var doc struct {
